@@ -90,7 +90,7 @@ def build_listeners(names, station, mstation, stations=None):
         elif n == "max":
             out.append((L.StationMaxListener(station), "max"))
         elif n == "mask":
-            out.append((L.StationMaskListener(mstation), "mask"))
+            out.append((L.StationMaskListener(station if station is not default else mstation), "mask"))
         elif n == "radial":
             out.append((L.RadialVelocityListener(station, sight=True), "radial"))
         else:
@@ -126,6 +126,16 @@ def main(inp, outp):
     mstation = create_station("VfMask", (43.604482, 1.443962, 172.0), mask=[list(2 * np.pi - az[::-1]), list(el[::-1])])
     # a second site from which a Molniya orbit shows two elevation maxima with an in-view minimum between them
     stations = {"asia": create_station("VfAsia", (35.0, 80.0, 1000.0)), "south": create_station("VfSouth", (-33.9, 18.4, 50.0))}
+    # a skyline: eight obstacles 25 degrees high with steep flanks on a 3-degree horizon - a satellite that is still climbing
+    # disappears behind a flank, one that is already descending reappears on the far side
+    sky_az, sky_el = [], []
+    for k in range(8):
+        for da, e in ((0, 3), (10, 3), (15, 25), (30, 25), (35, 3)):
+            sky_az.append(45 * k + da)
+            sky_el.append(e)
+    sky_az.append(360)
+    sky_el.append(3)
+    stations["skyline"] = create_station("VfSkyline", (43.604482, 1.443962, 172.0), mask=[list(np.radians(sky_az)), list(np.radians(sky_el))])
     traces = []
     notes = []
     for sc in job["scenarios"]:
